@@ -113,7 +113,7 @@ def check_one(case) -> core.Out:
 
                 try:
                     o2 = dict(opts, bufsize=bufsize)
-                    h2 = (lambda e: None) if opts["quitonerror"] == 1 else None
+                    h2 = S.handler_returning(len(data)) if opts["quitonerror"] == 1 else None
                     with S.deadline():
                         rd = S.mk_reader(connect(), o2, h2)
                         gc.collect()
@@ -139,7 +139,7 @@ def check_one(case) -> core.Out:
                 try:
                     o2 = dict(opts, bufsize=bufsize)
                     try:
-                        got, exc = S.read_all(sock, o2, handler=(lambda e: None) if opts["quitonerror"] == 1 else None,
+                        got, exc = S.read_all(sock, o2, handler=S.handler_returning(len(data)) if opts["quitonerror"] == 1 else None,
                                               limit=4 * len(data) + 50)
                     except S.HarnessHang as err:
                         out.viol.append((f"{PROP}|hang", f"socket run did not terminate: {err}"))
